@@ -213,8 +213,66 @@ pub fn strip_colors(input: &str) -> Result<String> {
     String::from_utf8(stripped).context("decode stripped bytes back to utf8 string")
 }
 
+/// Removes the ANSI escape sequences from the given bytes: CSI sequences (`ESC [` ..),
+/// OSC and the other control strings (`ESC ]` .. `BEL` or `ESC \`), sequences with
+/// intermediate bytes (`ESC (` ..) and the two byte sequences. All other bytes are
+/// kept as they are, including TAB, CR and the other control characters. A sequence
+/// never extends beyond the end of its line.
 pub fn strip_colors_bytes(input: &[u8]) -> Result<Vec<u8>> {
-    strip_ansi_escapes::strip(input).context("strip ansi escape sequences from rendered output")
+    let mut output = Vec::with_capacity(input.len());
+    let mut index = 0;
+    while index < input.len() {
+        if input[index] != 0x1b {
+            output.push(input[index]);
+            index += 1;
+            continue;
+        }
+        index += 1;
+        match input.get(index) {
+            // parameter and intermediate bytes, then the final byte
+            Some(b'[') => {
+                index += 1;
+                while index < input.len() && (0x20..=0x3f).contains(&input[index]) {
+                    index += 1;
+                }
+                if index < input.len() && (0x40..=0x7e).contains(&input[index]) {
+                    index += 1;
+                }
+            }
+            // control strings run until the string terminator (or BEL)
+            Some(b']') | Some(b'P') | Some(b'X') | Some(b'^') | Some(b'_') => {
+                index += 1;
+                while index < input.len() {
+                    match input[index] {
+                        0x07 => {
+                            index += 1;
+                            break;
+                        }
+                        0x1b if input.get(index + 1) == Some(&b'\\') => {
+                            index += 2;
+                            break;
+                        }
+                        0x1b | b'\n' => break,
+                        _ => index += 1,
+                    }
+                }
+            }
+            // intermediate bytes, then the final byte
+            Some(0x20..=0x2f) => {
+                while index < input.len() && (0x20..=0x2f).contains(&input[index]) {
+                    index += 1;
+                }
+                if index < input.len() && (0x30..=0x7e).contains(&input[index]) {
+                    index += 1;
+                }
+            }
+            // two byte sequences
+            Some(0x30..=0x7e) => index += 1,
+            // not a sequence, only the ESC goes
+            _ => {}
+        }
+    }
+    Ok(output)
 }
 
 #[cfg(test)]
